@@ -335,6 +335,39 @@ def b_topology_parameters(S):
     )
 
 
+def b_boundary_lines(S):
+    """`determine_boundary_intersecting_lines`: both loops (areas x candidate lines of the area's extended window), the near-boundary
+    test, the two ways of cutting through, the two boolean arrays over the frame's index values"""
+    src = S[GENERAL]
+    q = "determine_boundary_intersecting_lines"
+    C = {
+        "area_gdf.geometry.values": "areas",
+        "geom_bounds(target_area)": "((), (), (), ())",
+        "target_area_bounds": "((), (), (), ())",
+        "spatial_index.intersection(extend_bounds(min_x=min_x, min_y=min_y, max_x=max_x, max_y=max_y, extend_amount=snap_threshold * 100))": "()",
+        "list(intersection if intersection is not None else [])": "(wq target_area)",
+        "line_gdf.iloc[candidate_idx].geometry": "(line_at candidate_idx)",
+        "line.distance(target_area.boundary)": "(ldist line target_area)",
+        "get_trace_endpoints(line)": "(ends_of line)",
+        "endpoint.distance(target_area.boundary)": "(pdist endpoint target_area)",
+        "endpoint.within(target_area)": "(within endpoint target_area)",
+        "np.isclose(line.distance(target_area), 0)": "(touches line target_area)",
+        "line_gdf.index.values": "index_values",
+    }
+    T = {"area_gdf.geometry.values": "List A", "geom_bounds(target_area)": "Unit × Unit × Unit × Unit", "target_area_bounds": "Unit × Unit × Unit × Unit",
+         "spatial_index.intersection(extend_bounds(min_x=min_x, min_y=min_y, max_x=max_x, max_y=max_y, extend_amount=snap_threshold * 100))": "Unit",
+         "intersection": "Unit", "list(intersection if intersection is not None else [])": "List Nat", "candidate_idxs": "List Nat",
+         "line_gdf.iloc[candidate_idx].geometry": "L", "line": "L", "line.distance(target_area.boundary)": "Rat", "get_trace_endpoints(line)": "List P",
+         "endpoints": "List P", "endpoint.distance(target_area.boundary)": "Rat", "endpoint.within(target_area)": "Bool",
+         "np.isclose(line.distance(target_area), 0)": "Bool", "line_gdf.index.values": "List Nat", "intersecting_idxs": "List Nat", "cuts_through_idxs": "List Nat",
+         "intersecting_lines": "List Bool", "cuts_through_lines": "List Bool", "candidate_idx": "Nat", "idx": "Nat"}
+    return translate_function(
+        src, q, "boundary_intersecting_lines", {"snap_threshold": "Rat"}, "List Bool × List Bool", C, types=T,
+        extra_params=[("{A}", "Type"), ("{L}", "Type"), ("{P}", "Type"), ("areas", "List A"), ("wq", "A → List Nat"), ("line_at", "Nat → L"), ("ldist", "L → A → Rat"),
+                      ("ends_of", "L → List P"), ("pdist", "P → A → Rat"), ("within", "P → A → Bool"), ("touches", "L → A → Bool"), ("index_values", "List Nat")],
+        slice_from="intersecting_idxs = []", default_num="Rat", join="tuple")
+
+
 def b_branch_boundary(S):
     """elementwise reading of branches_intersect_boundary / branch_intersects_target_area_boundary / bool_arrays_sum"""
     C = gconsts(S)
@@ -1293,6 +1326,7 @@ ITEMS: List[Item] = [
     Item("SnapDriver", BAN, ["C06", "C03"], b_snap_driver),
     Item("BoundaryWeight", GENERAL, ["C08"], b_boundary_weight),
     Item("BranchBoundary", PARAMS, ["C08"], b_branch_boundary, extra_modules=[GENERAL, NETWORK]),
+    Item("BoundaryLines", GENERAL, ["C08", "C16"], b_boundary_lines),
     Item("ParamTable", GENERAL, ["C08", "C20"], b_param_table),
     Item("TopologyParameters", PARAMS, ["C08", "C11"], b_topology_parameters, deps=["ParamTable"], extra_modules=[GENERAL]),
     Item("IsSet", GENERAL, ["C15"], b_is_set),
